@@ -12,7 +12,8 @@ EXTENDS Prescan
 
 EncodingDefects == {
     "bom-utf32-shadows-utf16",     \* FF FE 00 00 / 00 00 FE FF are taken for UTF-32 BOMs: no encoding results, 4 bytes stay skipped
-    "latemeta-utf16-no-switch" }   \* a late <meta charset=utf-16> while tentative does nothing (should mean UTF-8)
+    "latemeta-utf16-no-switch",    \* a late <meta charset=utf-16> while tentative does nothing (should mean UTF-8)
+    "bom-seek-past-end" }          \* a 2-byte input that is just a UTF-16 BOM: seek(3) on a non-seekable source raises
 DefectNames == PrescanDefects \cup EncodingDefects
 
 -----------------------------------------------------------------------------
@@ -34,6 +35,9 @@ DetectBom(data, D) ==
     ELSE IF b4 # "none" THEN [bom |-> b4, seek |-> 4]
     ELSE IF b2 # "none" THEN [bom |-> b2, seek |-> 2]
     ELSE [bom |-> "none", seek |-> 0]
+\* the first table test (data[:3]) finds a 2-byte BOM with seek = 3, past the end of the input: harmless on a
+\* seekable source, but html5lib's BufferedStream (wrapped around sources that cannot seek) asserts
+BomSeekFails(data, src, D) == "bom-seek-past-end" \in D /\ src = "pipe" /\ Len(data) < 3 /\ BomOf(Take3(data)) # "none"
 BomLen(bom) == CASE bom = "utf-8" -> 3 [] bom \in {"utf-16le", "utf-16be"} -> 2 [] bom \in {"utf-32le", "utf-32be"} -> 4 [] OTHER -> 0
 
 \* what the BOM step yields: [enc, pos].  The standard knows three BOMs; FF FE 00 00 is a UTF-16LE BOM
